@@ -9,6 +9,7 @@ table the SVR4 writer refuses names longer than 15 bytes, which is modelled.
 Core Lean only.
 -/
 import LA.Model.Codec
+import LA.Model.FmtSpec
 import LA.Gen.ArLayout
 namespace LA.Codec
 open LA.NumFmt LA.Gen.ArLayout LA.Gen.CodecConsts
@@ -28,7 +29,7 @@ def arMagic : List Nat := [33, 60, 97, 114, 99, 104, 62, 10]
 /-- `ar_basename`: the part after the last '/', `none` for a name that ends in '/'. -/
 def arBasename (p : List Nat) : Option (List Nat) :=
   if p.getLast? = some slash then none
-  else some (p.reverse.takeWhile (· ≠ slash)).reverse
+  else some (basename p)
 
 def arSpecial (p : List Nat) : Bool :=
   p = [47] || p = [47, 83, 89, 77, 54, 52, 47] || p = [95, 95, 46, 83, 89, 77, 68, 69, 70] || p = [47, 47]
